@@ -4,7 +4,7 @@ from hc_oracles import reliable_order_oracle, stall_oracle, crash_oracle
 
 PROP = "C02"
 COQ_FILE = "props/C02.v"
-THEOREMS = ['C02_window_never_passes_stored_packet', 'C02_sync_due', 'C02_rate_floor', 'C02_retransmission_kept']
+THEOREMS = ['C02_window_never_passes_stored_packet', 'C02_sync_due', 'C02_rate_floor', 'C02_retransmission_kept', 'C02_sync_packet_id_only_when_idle']
 USES_FLOATS = True
 NEEDS_RELEASE = False
 ASSUMPTIONS = ["proved: receive window never passes a stored undelivered packet, sync frames are due, rate floor; NOT proved: end-to-end ordering w.r.t. the sender's submission order and bounded-time delivery (liveness through the float rate dynamics) (partial)", 'liveness oracle: no progress over the last 24 loss-free rounds (60 s virtual) while work is pending = stall']
